@@ -693,3 +693,105 @@ Definition run_tree_accessors (root : item) (mname ename : option Z) : val :=
           [Planar; Volumetric; ImageK]).
 Definition run_accessors (pre : list item) (gs : list group) (mname ename : option Z) : val :=
   run_tree_accessors (report pre gs) mname ename.
+
+(* ---- what the template classes ACCEPT: the argument checks of the constructors ---------------------------------- *)
+(* content.py ReferencedSegment.__init__ / VolumeSurface.__init__:
+     if source_images is not None: (append each)  elif source_series is not None: (append)  else: raise ValueError
+   - an EMPTY source_images sequence passes and writes no source item. *)
+Inductive src_arg := SrcArg (images : option (list (Z * Z))) (series : option Z).
+Definition construct_sources (a : src_arg) : res sources :=
+  match a with
+  | SrcArg (Some l) _ => Ok (SrcImages l)
+  | SrcArg None (Some u) => Ok (SrcSeries u)
+  | SrcArg None None => Err "ValueError"%string
+  end.
+
+(* an object handed to a group constructor as reference argument *)
+Inductive obj :=
+| ORegion2D (gt cls inst : Z) | ORegion3D (gt : Z)
+| OSegFrame (cls inst scls sinst : Z)
+| OSegment (cls inst : Z) (so : sources)
+| OSurface (gt : Z) (n : nat) (so : sources)
+| OOther.                                             (* an object of another class *)
+(* how the harness asks for such an object *)
+Inductive ospec :=
+| SpRegion2D (gt cls inst : Z) | SpRegion3D (gt : Z) | SpSegFrame (cls inst scls sinst : Z)
+| SpSegment (cls inst : Z) (a : src_arg) | SpSurface (gt : Z) (n : nat) (a : src_arg) | SpOther.
+
+(* VolumeSurface.__init__: ELLIPSOID / POINT take at most one graphic data item, ELLIPSE / POLYGON at least two,
+   other graphic types are refused (an EMPTY graphic data list passes for ELLIPSOID / POINT) *)
+Definition surface_count_check (gt : Z) (n : nat) : res unit :=
+  if (gt =? 6) || (gt =? 1) then (if 1 <? Z.of_nat n then Err "ValueError"%string else Ok tt)
+  else if (gt =? 5) || (gt =? 4) then (if Z.of_nat n <? 2 then Err "ValueError"%string else Ok tt)
+  else Err "ValueError"%string.
+
+Definition make_obj (s : ospec) : res obj :=
+  match s with
+  | SpRegion2D gt c i => Ok (ORegion2D gt c i)
+  | SpRegion3D gt => Ok (ORegion3D gt)
+  | SpSegFrame c i sc si => Ok (OSegFrame c i sc si)
+  | SpSegment c i a => bind (construct_sources a) (fun so => Ok (OSegment c i so))
+  | SpSurface gt n a => bind (surface_count_check gt n) (fun _ => bind (construct_sources a) (fun so => Ok (OSurface gt n so)))
+  | SpOther => Ok OOther
+  end.
+
+Definition nsome {A} (o : option A) : Z := match o with Some _ => 1 | None => 0 end.
+
+(* PlanarROIMeasurementsAndQualitativeEvaluations.__init__ *)
+Definition construct_planar (region segment : option obj) : res gref :=
+  if nsome region + nsome segment =? 0 then Err "ValueError"%string
+  else if 1 <? nsome region + nsome segment then Err "ValueError"%string
+  else match region, segment with
+       | Some (ORegion2D gt c i), _ => Ok (Region2D gt c i)
+       | Some (ORegion3D gt), _ => Ok (Region3D gt)
+       | Some _, _ => Err "TypeError"%string
+       | None, Some (OSegFrame c i sc si) => Ok (SegFrame c i sc si)
+       | None, _ => Err "TypeError"%string
+       end.
+
+(* VolumetricROIMeasurementsAndQualitativeEvaluations.__init__ + _ROIMeasurementsAndQualitativeEvaluations.__init__ *)
+Definition is_r3 (o : obj) : bool := match o with ORegion3D _ => true | _ => false end.
+Fixpoint regions_of (l : list obj) : res (list (Z * (Z * Z))) :=
+  match l with
+  | [] => Ok []
+  | ORegion2D gt c i :: t => bind (regions_of t) (fun r => Ok ((gt, (c, i)) :: r))
+  | _ :: _ => Err "TypeError"%string
+  end.
+Definition construct_volumetric (regions : option (list obj)) (surface segment : option obj) : res gref :=
+  if match regions with Some l => existsb is_r3 l | None => false end then Err "TypeError"%string
+  else if match segment with Some (OSegment _ _ _) | None => false | Some _ => true end then Err "TypeError"%string
+  else if nsome regions + nsome surface + nsome segment =? 0 then Err "ValueError"%string
+  else if 1 <? nsome regions + nsome surface + nsome segment then Err "ValueError"%string
+  else match regions, surface, segment with
+       | Some [], _, _ => Err "ValueError"%string
+       | Some l, _, _ => bind (regions_of l) (fun r => Ok (Regions r))
+       | None, Some (OSurface gt n so), _ => Ok (Surface gt n so)
+       | None, Some _, _ => Err "TypeError"%string
+       | None, None, Some (OSegment c i so) => Ok (Segment c i so)
+       | None, None, _ => Err "TypeError"%string
+       end.
+
+(* the group a successful construction yields (tracking uid 1, identifier 1000, nothing optional) *)
+Definition bare_group (k : kind) (r : gref) : group := Group k 1 1000 None None None [] r [] [] None None None true.
+
+Definition opt_obj (o : option ospec) : res (option obj) :=
+  match o with None => Ok None | Some s => bind (make_obj s) (fun x => Ok (Some x)) end.
+Fixpoint objs (l : list ospec) : res (list obj) :=
+  match l with [] => Ok [] | s :: t => bind (make_obj s) (fun x => bind (objs t) (fun r => Ok (x :: r))) end.
+Definition opt_objs (o : option (list ospec)) : res (option (list obj)) :=
+  match o with None => Ok None | Some l => bind (objs l) (fun r => Ok (Some r)) end.
+
+(* observation: stage at which construction is refused, or every accessor of the group once it sits in a report *)
+Definition construct_val (k : kind) (ob : res (res gref)) : val :=
+  match ob with
+  | Err e => VL [VS "object"; VErr e]
+  | Ok (Err e) => VL [VS "group"; VErr e]
+  | Ok (Ok r) => VL [VS "ok"; run_tree_accessors (report [] [bare_group k r]) None None]
+  end.
+Definition run_construct_planar (region segment : option ospec) : val :=
+  construct_val Planar
+    (bind (opt_obj region) (fun r => bind (opt_obj segment) (fun s => Ok (construct_planar r s)))).
+Definition run_construct_volumetric (regions : option (list ospec)) (surface segment : option ospec) : val :=
+  construct_val Volumetric
+    (bind (opt_objs regions) (fun r => bind (opt_obj surface) (fun su => bind (opt_obj segment) (fun s =>
+       Ok (construct_volumetric r su s))))).
